@@ -444,15 +444,22 @@ func (f *SQLFormatter) formatCreateTable(stmt *ast.CreateTableStatement) error {
 		f.writeKeyword("IF NOT EXISTS")
 	}
 
-	f.builder.WriteString(" " + stmt.Name + " (")
+	f.builder.WriteString(" " + ast.QualifiedNameSQL(stmt.Name) + " (")
 
 	if !f.compact {
 		f.writeNewline()
 		f.increaseIndent()
 	}
 
-	for i, col := range stmt.Columns {
-		col := col // G601: Create local copy to avoid memory aliasing
+	// Column definitions, then table constraints, each as the AST serialises it
+	elems := make([]string, 0, len(stmt.Columns)+len(stmt.Constraints))
+	for i := range stmt.Columns {
+		elems = append(elems, stmt.Columns[i].SQL())
+	}
+	for i := range stmt.Constraints {
+		elems = append(elems, stmt.Constraints[i].SQL())
+	}
+	for i, elem := range elems {
 		if i > 0 {
 			f.builder.WriteString(",")
 			if !f.compact {
@@ -464,7 +471,7 @@ func (f *SQLFormatter) formatCreateTable(stmt *ast.CreateTableStatement) error {
 		if !f.compact {
 			f.builder.WriteString(f.currentIndent())
 		}
-		f.formatColumnDef(&col)
+		f.builder.WriteString(elem)
 	}
 
 	if !f.compact {
@@ -472,6 +479,34 @@ func (f *SQLFormatter) formatCreateTable(stmt *ast.CreateTableStatement) error {
 		f.writeNewline()
 	}
 	f.builder.WriteString(")")
+
+	if len(stmt.Inherits) > 0 {
+		f.builder.WriteString(" ")
+		f.writeKeyword("INHERITS")
+		f.builder.WriteString(" (")
+		for i, name := range stmt.Inherits {
+			if i > 0 {
+				f.builder.WriteString(", ")
+			}
+			f.builder.WriteString(ast.QualifiedNameSQL(name))
+		}
+		f.builder.WriteString(")")
+	}
+	if stmt.PartitionBy != nil {
+		f.writeNewline()
+		f.writeKeyword("PARTITION BY")
+		f.builder.WriteString(" " + stmt.PartitionBy.Type + " (")
+		for i, name := range stmt.PartitionBy.Columns {
+			if i > 0 {
+				f.builder.WriteString(", ")
+			}
+			f.builder.WriteString(ast.QualifiedNameSQL(name))
+		}
+		f.builder.WriteString(")")
+	}
+	for _, opt := range stmt.Options {
+		f.builder.WriteString(" " + opt.Name + "=" + opt.Value)
+	}
 
 	return nil
 }
@@ -491,21 +526,36 @@ func (f *SQLFormatter) formatCreateIndex(stmt *ast.CreateIndexStatement) error {
 		f.writeKeyword("IF NOT EXISTS")
 	}
 
-	f.builder.WriteString(" " + stmt.Name)
+	f.builder.WriteString(" " + ast.QualifiedNameSQL(stmt.Name))
 	f.builder.WriteString(" ")
 	f.writeKeyword("ON")
-	f.builder.WriteString(" " + stmt.Table + " (")
+	f.builder.WriteString(" " + ast.QualifiedNameSQL(stmt.Table))
+	if stmt.Using != "" {
+		f.builder.WriteString(" ")
+		f.writeKeyword("USING")
+		f.builder.WriteString(" " + stmt.Using)
+	}
+	f.builder.WriteString(" (")
 
 	for i, col := range stmt.Columns {
 		if i > 0 {
 			f.builder.WriteString(", ")
 		}
-		f.builder.WriteString(col.Column)
+		f.builder.WriteString(ast.QualifiedNameSQL(col.Column))
 		if col.Direction != "" {
 			f.builder.WriteString(" " + col.Direction)
 		}
 	}
 	f.builder.WriteString(")")
+
+	if stmt.Where != nil {
+		f.writeNewline()
+		f.writeKeyword("WHERE")
+		f.builder.WriteString(" ")
+		if err := f.formatExpression(stmt.Where); err != nil {
+			return err
+		}
+	}
 
 	return nil
 }
